@@ -322,6 +322,108 @@ def build_interleaving(hsteps, forms, inserts, mode="quiet"):
     return steps
 
 
+# ------------------------------------------------------------------ layout of the forms over input lines
+# The property speaks of forms fed one after another; how they are spread over input LINES is layout.  The loop reads
+# one step = the lines up to the first one scanIsContinued calls complete, so several forms on one line are ONE step
+# (a sequence), and a form broken inside parentheses is still one step.
+LAYOUTS = ("one-form-per-line", "packed", "split", "packed+split")
+ONE_LINE = re.compile(r"^[^\n]*;\n\Z")
+
+
+def form_class(src):
+    if re.match(r"g\d+: ", src):
+        return "definition"
+    if re.match(r"g\d+(?:\.[^ ]*)? := ", src):
+        return "assignment"
+    if src.startswith("stdout <<"):
+        return "output"
+    return "other"
+
+
+def split_points(line):
+    """Where a one-line form may be broken in the loop.  The loop reads its input in `#pile` layout (linear.c:909 puts a
+    KW_StartPile in front of every step), so a line break is NOT plain white space: a line ending in `then` / `else` /
+    `if` opens a sub-pile and `(if c then\n    a else b)` is a syntax error there although the batch compiler (no
+    `#pile`) takes it.  Two break points are safe under the piling rules and were checked by hand: after a comma
+    inside parentheses, and before a `then` / `else` (a line that starts with a follower is joined to the previous
+    one).  Returns the indices of such spaces (outside strings)."""
+    pts, depth, in_str, esc = [], 0, False, False
+    for i, ch in enumerate(line):
+        if esc:
+            esc = False
+        elif ch == "_":
+            esc = True
+        elif in_str:
+            if ch == '"':
+                in_str = False
+        elif ch == '"':
+            in_str = True
+        elif ch in "({[":
+            depth += 1
+        elif ch in ")}]":
+            depth -= 1
+        elif ch == " " and depth > 0:
+            if line[i - 1] == "," or line.startswith(("then ", "else "), i + 1):
+                pts.append(i)
+    return pts
+
+
+def apply_layout(steps, nh, layout, lrng, stats=None, last_must_be_output=False):
+    """steps[nh:] re-laid out.  Only accepted one-line forms `...;` are packed (2-3 consecutive ones on one line,
+    separated by their own `;`) -- an erroneous form stays alone on its line(s), because the loop rejects a LINE
+    as a whole.  Splitting breaks a one-line form at 1-2 spaces inside parentheses (the loop asks for more input
+    while a parenthesis is open).  Every result is checked with the port of scanIsContinued."""
+    if layout == "one-form-per-line":
+        return list(steps)
+    out = list(steps[:nh])
+    body = list(steps[nh:])
+    i = 0
+    while i < len(body):
+        src, exp, bad = body[i]
+        group = [body[i]]
+        if "packed" in layout and not bad and ONE_LINE.match(src) and not src.startswith("#"):
+            k = lrng.choice([1, 2, 2, 3])
+            while len(group) < k and i + len(group) < len(body):
+                s2, e2, b2 = body[i + len(group)]
+                if b2 or not ONE_LINE.match(s2) or s2.startswith("#"):
+                    break
+                group.append(body[i + len(group)])
+        if len(group) > 1:
+            # verbose mode echoes the value and type of the LINE (its last statement); after a definition that is a
+            # multi-line category dump: there only lines that end with an output statement are packed
+            while last_must_be_output and len(group) > 1 and form_class(group[-1][0]) != "output":
+                group.pop()
+        if len(group) > 1:
+            cand = (" ".join(g[0].rstrip("\n") for g in group) + "\n", "".join(g[1] for g in group), False)
+            if cut_ok([cand[0]]):
+                out.append(cand)
+                if stats is not None:
+                    stats["packed:" + "+".join(form_class(g[0]) for g in group)] += 1
+                i += len(group)
+                continue
+            group = group[:1]
+        if "split" in layout and not bad and ONE_LINE.match(src) and len(src) > 50 and not src.startswith("#") \
+                and "+->" not in src:       # a break inside a lambda body draws "Suspicious juxtaposition" under the piling rules
+            pts = split_points(src)
+            if pts:
+                cut = sorted(set(lrng.sample(pts, min(len(pts), lrng.choice([1, 1, 2])))))
+                pieces, last = [], 0
+                for c in cut:
+                    pieces.append(src[last:c])
+                    last = c + 1
+                pieces.append(src[last:])
+                cand = "\n    ".join(pieces)
+                if all(pc.strip() for pc in pieces) and cut_ok([cand]):
+                    out.append((cand, exp, False))
+                    if stats is not None:
+                        stats["split:%s-into-%d-lines" % (form_class(src), len(pieces))] += 1
+                    i += 1
+                    continue
+        out.append(body[i])
+        i += 1
+    return out
+
+
 def bad_ranges(mode, steps):
     line = MODES[mode].count("\n")
     rs = []
@@ -529,6 +631,7 @@ def run(rep, tier):
     kinds_used = collections.Counter()
     positions_covered = 0
     failures = []
+    layout_stats, layout_sessions = collections.Counter(), collections.Counter()
     while done < n_prog and time.time() - t_start < budget and \
             sum(1 for fl in failures if class_key(fl[0], fl[4], fl[6]) is None) < 12:
         jobs = [(rng.randrange(1, 2 ** 40), rng.choice(sizes)) for _ in range(16 if quick else 32)]
@@ -559,9 +662,18 @@ def run(rep, tier):
             bads = [x for x in m["mutants"] if x["kind"] in USABLE_KINDS and cut_ok([x["bad_form"]])]
             prog = {"f": f, "hsteps": hsteps, "good_steps": good_steps, "bads": bads}
             modes = ["quiet", "verbose"] if "verbose" not in skip_modes else ["quiet"]
-            for md in modes:
-                work.append(("good", md, prog, good_steps if md == "quiet" else good_steps_v, None))
-            work.append(("batch", None, prog, None, None))
+            nh_q, nh_v = len(hsteps) + len(AFTER_HEADER["quiet"]), len(hsteps) + len(AFTER_HEADER["verbose"])
+            prog["nh"] = {"quiet": nh_q, "verbose": nh_v}
+            work.append(("good", "quiet", prog, good_steps, None, "one-form-per-line"))       # the reference transcript
+            for lay in ("packed", "split", "packed+split"):
+                ls = apply_layout(good_steps, nh_q, lay, C.rng("c13-layout/%d/%s" % (f["seed"], lay)), layout_stats)
+                if ls != good_steps:
+                    work.append(("good", "quiet", prog, ls, None, lay))
+            if "verbose" in modes:
+                lay = rng.choice(LAYOUTS)
+                work.append(("good", "verbose", prog,
+                             apply_layout(good_steps_v, nh_v, lay, C.rng("c13-layout/%d/v" % f["seed"]), layout_stats, True), None, lay))
+            work.append(("batch", None, prog, None, None, None))
             # interleavings
             plans = []
             for x in bads:
@@ -574,27 +686,30 @@ def run(rep, tier):
                 for _ in range(2 if quick else 4):
                     k = rng.randrange(1, min(4, len(plans)) + 1)
                     ins = [(rng.choice(ps), x) for x, ps in rng.sample(plans, k)]
-                    work.append(("mixed", rng.choice(["quiet", "quiet"] + [m for m in modes if m == "verbose"]), prog, None, ins))
+                    work.append(("mixed", rng.choice(["quiet", "quiet"] + [m for m in modes if m == "verbose"]), prog, None, ins,
+                                 rng.choice(LAYOUTS)))
                 # every position: one erroneous form entered before every form and at the end (a rejected FUNCTION
                 # definition at most twice per session: many of them corrupt the loop's state, finding `many-rejected-functions`)
                 for x, ps in plans[:(1 if quick else 4)]:
                     if re.match(r"f\d+\(", x["bad_form"]):
                         ps = rng.sample(ps, min(2, len(ps)))
-                    work.append(("mixed", "quiet", prog, None, [(p, x) for p in ps]))
+                    work.append(("mixed", "quiet", prog, None, [(p, x) for p in ps], rng.choice(LAYOUTS)))
                 if not quick:
                     # every position, one session per position, for one erroneous form
                     x, ps = plans[0]
                     for p in ps:
-                        work.append(("mixed", "quiet", prog, None, [(p, x)]))
+                        work.append(("mixed", "quiet", prog, None, [(p, x)], rng.choice(LAYOUTS)))
             else:
                 st["programs-without-usable-erroneous-form"] += 1
 
         def one(w):
-            what, md, prog, steps, ins = w
+            what, md, prog, steps, ins, lay = w
             if what == "batch":
                 return w, None, run_batch(aldor, prog["f"]["src"], base)
             if what == "mixed":
                 steps = build_interleaving(prog["hsteps"], prog["f"]["forms"], [(p, x["bad_form"]) for p, x in ins], md)
+                steps = apply_layout(steps, prog["nh"][md], lay,
+                                     C.rng("c13-layout/%d/m/%s" % (prog["f"]["seed"], [p for p, _ in ins])), None, md == "verbose")
             rc, out, err = run_loop(aldor, session_text(md, [s for s, _, _ in steps]), base)
             return w, steps, (rc, out + err)
         results = []
@@ -602,11 +717,11 @@ def run(rep, tier):
             results = list(ex.map(one, work))
         # good sessions and batch first: they give the reference transcript of each program
         ref = {}
-        for (what, md, prog, _, ins), steps, r in results:
+        for (what, md, prog, _, ins, lay), steps, r in results:
             if what == "batch":
                 st["batch-runs"] += 1
                 ref.setdefault((prog["f"]["seed"], prog["f"]["size"]), {})["batch"] = r
-        for (what, md, prog, _, ins), steps, r in results:
+        for (what, md, prog, _, ins, lay), steps, r in results:
             f = prog["f"]
             k = (f["seed"], f["size"])
             if what == "good":
@@ -619,14 +734,15 @@ def run(rep, tier):
                     st["good-session/%s/not-judged:batch-rejects-the-program-too(C01)" % md] += 1
                     continue
                 st["good-session/%s/%s" % (md, cls or "ok")] += 1
-                if md == "quiet":
+                layout_sessions["good/%s/%s" % (md, lay)] += 1
+                if md == "quiet" and lay == "one-form-per-line":
                     ref.setdefault(k, {})["body"] = body_of(out, md)
                 if cls:
                     failures.append((cls, "good", md, prog, steps, None, out))
-        for (what, md, prog, _, ins), steps, r in results:
+        for (what, md, prog, _, ins, lay), steps, r in results:
             f = prog["f"]
             k = (f["seed"], f["size"])
-            if what == "good" and md == "quiet":
+            if what == "good" and md == "quiet" and lay == "one-form-per-line":
                 b = ref[k].get("batch")
                 body = ref[k].get("body")
                 if b is not None and body is not None:
@@ -646,12 +762,13 @@ def run(rep, tier):
                     continue
                 cls = judge_mixed(md, steps, rc, out, good_body)
                 st["interleaved-session/%s/%s" % (md, cls or "ok")] += 1
+                layout_sessions["interleaved/%s/%s" % (md, lay)] += 1
                 positions_covered += len(ins)
                 for p, x in ins:
                     kinds_used[x["kind"]] += 1
                 if cls:
                     failures.append((cls, "mixed", md, prog, steps, ins, out))
-        for (what, md, prog, _, ins), steps, r in results[:40]:
+        for (what, md, prog, _, ins, lay), steps, r in results[:40]:
             if what == "mixed" and len(samples) < 12:
                 samples.append({"seed": prog["f"]["seed"], "size": prog["f"]["size"], "mode": md, "forms": len(prog["f"]["forms"]),
                                 "erroneous_forms": [(p, x["kind"]) for p, x in ins][:6]})
@@ -687,7 +804,9 @@ def run(rep, tier):
                                     "forms_per_program": {"min": min(nforms or [0]), "max": max(nforms or [0]),
                                                           "mean": round(sum(nforms) / max(1, len(nforms)), 1)},
                                     "outcomes": dict(sorted(st.items())),
-                                    "erroneous_forms_entered": positions_covered, "erroneous_kinds": dict(kinds_used)},
+                                    "erroneous_forms_entered": positions_covered, "erroneous_kinds": dict(kinds_used),
+                                    "sessions_per_layout": dict(sorted(layout_sessions.items())),
+                                    "packings_and_splits_of_good_sessions": dict(sorted(layout_stats.items()))},
                 timings_s={"proof+build": round(t_build, 1), "sessions": round(t_run, 1)})
     rep.assume(
         "the real loop (compGLoopEval, fintWrap, scoSetUndoState, interpreter state) is tied to the Coq model only by these runs",
@@ -699,6 +818,10 @@ def run(rep, tier):
         "message blocks are recognised by the -Mname header `{ALDOR_...}`; program output never starts a line with `{ALDOR_`",
         "sessions start with `#int timing off` (and `#int verbose off` in the quiet mode); forms are cut by the loop itself "
         "(scanIsContinued), a python port of which is asserted on every form fed",
+        "layout: besides one form per input line, sessions pack 2-3 consecutive accepted one-line forms on ONE line (one loop step: "
+        "definition+output, assignment+output, output+output, definition+definition, ...) and split one-line forms over 2-3 "
+        "lines inside parentheses; an erroneous form always stays alone on its lines (the loop rejects a line as a whole); the "
+        "Coq theorems are about the list of forms and do not see the layout",
         "Coq extraction (ExtrOcamlBasic only), OCaml, Print.v (renderer) are trusted; libaldor is the pre-built one of /repo",
     )
 
@@ -780,6 +903,8 @@ def shrink_session(aldor, base, cls, what, md, prog, steps, budget_s=60):
                 break
             src, exp, bad = cur[i]
             rest = cur[:i] + cur[i + 1:]
+            if not bad and (re.search(r"; \S", src) or (ONE_LINE.match(src.replace("\n", " ", src.count("\n") - 1)) and src.count("\n") > 1)):
+                continue                                  # a packed or split line: kept as it is
             if not bad:
                 m = DEF_RE.match(src)
                 d = (m.group(1) or m.group(2)) if m else None
